@@ -1,0 +1,35 @@
+//go:build verif
+
+package disk
+
+import (
+	"strings"
+	"sync"
+)
+
+var (
+	freeM        sync.RWMutex
+	freeOverride map[string]uint64
+)
+
+// SetReportedFree overrides the free space reported for paths below the given
+// prefixes (nil = no override). Process-global; build tag `verif` only.
+func SetReportedFree(byPrefix map[string]uint64) {
+	freeM.Lock()
+	defer freeM.Unlock()
+
+	freeOverride = byPrefix
+}
+
+func reportedFree(path string, free uint64) uint64 {
+	freeM.RLock()
+	defer freeM.RUnlock()
+
+	for prefix, v := range freeOverride {
+		if strings.HasPrefix(path, prefix) {
+			return v
+		}
+	}
+
+	return free
+}
